@@ -212,6 +212,9 @@ def int_range(size_bits, signed):
 VARINT_BITS = {"quick": 35, "thorough": 63}
 
 
+STRICT = [False]      # when set, value domains are restricted to values that round-trip by design
+
+
 def domain(ctx, s, name, tier="quick", wide=False, env=None):
     """symbolic value template of spec s.  wide=True widens integer ranges by one bit on both
     sides (values the construct must reject are included).  Returns the value to build from."""
@@ -252,7 +255,11 @@ def domain(ctx, s, name, tier="quick", wide=False, env=None):
         w = ctx.concretize(which)
         if w < len(labels):
             return labels[w]
-        return domain(ctx, s[1], name + ".int", tier, False, env)
+        v = domain(ctx, s[1], name + ".int", tier, False, env)
+        if STRICT[0]:
+            for l, x in s[2]:
+                ctx.assume(v != x)      # a mapped integer parses back as its label: only unmapped ones round-trip as ints
+        return v
     if k == "flagsenum":
         return {l: ctx.bool("%s.%s" % (name, l)) for l, v in s[2]}
     if k == "mapping":
@@ -304,7 +311,9 @@ def domain(ctx, s, name, tier="quick", wide=False, env=None):
             n = ctx.concretize(env[s[1]] % (s[2] + 1))
         return ctx.bytes(name, n)
     if k == "arrayctx":
-        if s[2] is None:
+        if s[2] is None and s[1] not in env:
+            n = ctx.choice(name + ".len", [0, 1, 2])           # count is a rebuilt field
+        elif s[2] is None:
             n = env[s[1]]
             if n < 0:
                 n = 0
@@ -371,3 +380,124 @@ bitwise bytewise byteswapped bitsswapped xor rawcopy peek pointer raw""".split()
 def short(s, n=90):
     t = src(s)
     return t if len(t) <= n else t[:n - 3] + "..."
+
+
+# ---------------------------------------------------------------------------------------------
+# generator of well-formed composite specs (used by C01, C02, C04, C05, C06, C18)
+I8, I8s, I16l, I16b, I16sb, I24, I32, I64s = (("fmt", "Int8ub"), ("fmt", "Int8sb"), ("fmt", "Int16ul"), ("fmt", "Int16ub"), ("fmt", "Int16sb"),
+                                              ("fmt", "Int24ul"), ("fmt", "Int32ub"), ("fmt", "Int64sl"))
+VAR = ("varint",)
+ZZ = ("zigzag",)
+FLAG = ("flag",)
+ENUM_S = ("enum", I8, (("one", 1), ("two", 2), ("big", 200)))
+FLAGS_S = ("flagsenum", I8, (("a", 1), ("b", 4), ("c", 128)))
+MAP_S = ("mapping", I8, (("x", 0), ("y", 255)))
+BITS_S = ("bitwise", ("struct", (("p", ("bitsint", 3, False, False)), ("q", ("bitsint", 5, True, False)))))
+BITS16 = ("bitwise", ("struct", (("p", ("bitsint", 1, False, False)), ("q", ("bitsint", 10, True, False)), ("f", FLAG), ("r", ("bitsint", 4, False, False)))))
+
+BITS_SW = ("bitwise", ("struct", (("s", ("bitsint", 16, True, True)), ("u", ("bitsint", 8, False, True)))))
+LEAVES = [I8, I16l, I16sb, I24, I64s, ("bytesint", 5, True, True), VAR, ZZ, FLAG, ("bytes", 2), ENUM_S, FLAGS_S, MAP_S, BITS_S, BITS_SW]
+LEAVES_SMALL = [I8, I16sb, VAR, FLAG, ("bytes", 2), ENUM_S]
+
+
+def is_greedy(s):
+    """does the construct read to the end of the stream?"""
+    s = T(s)
+    k = s[0]
+    if k in ("greedybytes", "greedyrange", "nullstripped", "xor"):
+        return True
+    if k in ("optional", "select"):
+        return True          # alternatives look at whatever follows
+    if k in ("struct", "focusedseq"):
+        mem = s[1] if k == "struct" else s[2]
+        return any(is_greedy(x) for n, x in mem)
+    if k == "seq":
+        return any(is_greedy(x) for x in s[1])
+    if k in ("array",):
+        return is_greedy(s[2])
+    if k in ("arrayctx",):
+        return is_greedy(s[3])
+    if k in ("prefixedarray",):
+        return is_greedy(s[2])
+    if k in ("enum", "flagsenum", "mapping", "hex", "oneof", "noneof", "default", "rebuildlen", "rawcopy", "bitsswapped"):
+        return is_greedy(s[1])
+    if k in ("padded", "aligned"):
+        return is_greedy(s[2])
+    if k in ("if",):
+        return is_greedy(s[2])
+    if k == "ifthenelse":
+        return is_greedy(s[2]) or is_greedy(s[3])
+    if k == "switch":
+        return any(is_greedy(x) for c, x in s[2]) or (s[3] is not None and is_greedy(s[3]))
+    if k == "nullterminated":
+        return not s[5]      # require=False: EOF counts as terminator
+    return False
+
+
+def wrappers(x, rnd=None):
+    """well-formed one-level wrappings of spec x (x non-greedy)"""
+    from .ref import static_size
+    z = static_size(x)
+    out = [
+        ("struct", (("a", I8), ("b", x), ("c", I16l))),
+        ("struct", (("n", I8), ("b", x), ("d", ("bytesctx", "n", 3)))),
+        ("seq", (x, VAR)),
+        ("array", 2, x),
+        ("prefixedarray", I8, x, 2),
+        ("prefixedarray", VAR, x, 1),
+        ("greedyrange_tail", x),
+        ("prefixed", I8, x, False),
+        ("prefixed", I16l, x, True),
+        ("prefixed", VAR, ("greedyrange", x, 2), False),
+        ("aligned", 4, x, "00"),
+        ("struct", (("k", I8), ("v", ("ifthenelse", "k", x, I8)), ("z", I8))),
+        ("struct", (("k", I8), ("v", ("if", "k", x)))),
+        ("struct", (("k", I8), ("v", ("switch", "k", ((1, x), (2, I16l)), None)), ("z", FLAG))),
+        ("struct", (("k", ENUM_S), ("v", ("switch", "k", (("one", x),), VAR)))),
+        ("focusedseq", "m", (("h", ("const", "a55a")), ("m", x), ("t", ("const", "00")))),
+        ("struct", (("cnt", ("rebuildlen", I8, "items")), ("items", ("arrayctx", "cnt", None, x)))),
+        ("struct", (("d", ("default", I16sb, -7)), ("e", x))),
+        ("xor", 90, ("struct", (("a", x),))),
+        ("xor", "a1b2", ("struct", (("a", x),))),
+    ]
+    if z is not None:
+        out += [("padded", z + 2, x, "00"), ("padded", z, x, "ee"), ("fixedsized", z + 1, x), ("byteswapped", x), ("bitsswapped", x),
+                ("struct", (("a", x), ("t", ("tell",)), ("b", I8)))]
+    return out
+
+
+def expand(s):
+    """resolve pseudo-specs produced by wrappers()"""
+    s = T(s)
+    if s[0] == "greedyrange_tail":
+        return ("struct", (("h", I8), ("items", ("greedyrange", s[1], 2))))
+    return s
+
+
+def generate(tier, seed, depth2=200):
+    """deterministic list of composite specs: all leaves, all depth-1 wrappings, seeded sample of depth-2"""
+    import random
+    rnd = random.Random(seed * 104729 + 7)
+    out = list(LEAVES)
+    d1 = []
+    for x in LEAVES:
+        for w in wrappers(x):
+            d1.append(expand(w))
+    out += d1
+    cands = []
+    for x in LEAVES_SMALL:
+        for w in wrappers(x):
+            w = expand(w)
+            if is_greedy(w):
+                continue
+            for w2 in wrappers(w):
+                cands.append(expand(w2))
+    rnd.shuffle(cands)
+    out += cands[:depth2]
+    seen, uniq = set(), []
+    for s in out:
+        t = src(s)
+        if t not in seen:
+            seen.add(t)
+            uniq.append(s)
+    return uniq
